@@ -6,10 +6,11 @@ def main():
     out = os.path.join(C.scratch(), 'setup')
     plain, inst = overlay.build_prebuild(out)
     print('setup: built', os.path.basename(plain), 'and', os.path.basename(inst))
-    gox = os.path.join(C.VERIF, 'engine', 'gox')
-    if os.path.exists(os.path.join(gox, 'go.mod')):
-        from . import gox as G
-        G.build_all()
+    from . import gox as G
+    G.build_all()
+    from . import dfax
+    n = dfax.selftest()
+    print('setup: compiled-policy reader agrees with the naive glob matcher on %d (pattern, string) pairs' % n)
     print('setup: ok')
 
 if __name__ == '__main__':
